@@ -179,9 +179,40 @@ where
     let stop = AtomicBool::new(false);
     let shared = Mutex::new(std::mem::take(rep));
     let done_cases = AtomicU64::new(0);
+    // cases in progress: slot -> (index, seed, started)
+    let running: Mutex<BTreeMap<u64, (u64, u64, Instant)>> = Mutex::new(BTreeMap::new());
+    let workers_left = AtomicU64::new(ctx.threads as u64);
+    let limit_s: f64 = std::env::var("QV_CASE_WATCHDOG_S").ok().and_then(|v| v.parse().ok()).unwrap_or(300.0);
     std::thread::scope(|s| {
-        for _ in 0..ctx.threads {
-            s.spawn(|| loop {
+        // watchdog: a case normally takes milliseconds to a few seconds. One that has not returned
+        // after `limit_s` of wall time is not going to: the process cannot be saved (a thread
+        // cannot be killed), so report and exit.
+        s.spawn(|| {
+            while workers_left.load(Ordering::Relaxed) > 0 {
+                std::thread::sleep(std::time::Duration::from_millis(250));
+                let stuck = running.lock().unwrap().values().find(|(_, _, t)| t.elapsed().as_secs_f64() > limit_s).copied();
+                if let Some((idx, seed, t)) = stuck {
+                    hang_exit(ctx, g, idx, seed, t.elapsed().as_secs_f64());
+                }
+            }
+        });
+        for slot in 0..ctx.threads as u64 {
+            let running = &running;
+            let workers_left = &workers_left;
+            let next = &next;
+            let stop = &stop;
+            let shared = &shared;
+            let done_cases = &done_cases;
+            let f = &f;
+            s.spawn(move || {
+                struct Left<'a>(&'a AtomicU64);
+                impl Drop for Left<'_> {
+                    fn drop(&mut self) {
+                        self.0.fetch_sub(1, Ordering::Relaxed);
+                    }
+                }
+                let _left = Left(workers_left);
+                loop {
                 if stop.load(Ordering::Relaxed) {
                     break;
                 }
@@ -194,7 +225,9 @@ where
                     break;
                 }
                 let seed = if g.exhaustive { idx } else { case_seed(ctx, g.name, idx) };
+                running.lock().unwrap().insert(slot, (idx, seed, Instant::now()));
                 let r = catch_unwind(AssertUnwindSafe(|| f(idx, seed, false)));
+                running.lock().unwrap().remove(&slot);
                 let mut rep = shared.lock().unwrap();
                 rep.evaluations += 1;
                 done_cases.fetch_add(1, Ordering::Relaxed);
@@ -239,6 +272,7 @@ where
                             rep.harness_errors.push(format!("{}#{idx} seed {seed}: harness panic at {loc}: {msg}", g.name));
                         }
                     }
+                }
                 }
             });
         }
@@ -290,6 +324,39 @@ pub fn load_known(path: &str) -> Vec<Known> {
         }
     }
     out
+}
+
+
+/// A case did not return. For the property about hangs (C03) that is the violation itself; for
+/// every other check the run could not decide.
+fn hang_exit(ctx: &Ctx, g: &Group, idx: u64, seed: u64, secs: f64) -> ! {
+    let verif = std::env::var("QV_VERIF_DIR").unwrap_or_else(|_| "/verif".to_string());
+    let replay_dir = format!("{verif}/evidence/replays");
+    let _ = std::fs::create_dir_all(&replay_dir);
+    let path = format!("{replay_dir}/{}-{}-{}-{}.json", ctx.prop, ctx.seed, g.name, idx);
+    let msg = format!("case {}#{idx} (seed {seed}) did not return within {secs:.0} s of wall time; cases of this group normally take milliseconds", g.name);
+    let body = json!({"property": ctx.prop, "group": g.name, "case_index": idx, "case_seed": seed, "tier": ctx.tier.name(), "run_seed": ctx.seed, "message": msg});
+    let _ = std::fs::write(&path, serde_json::to_string_pretty(&body).unwrap());
+    let violation = ctx.prop == "C03";
+    let ev = json!({
+        "property_id": ctx.prop,
+        "tier": ctx.tier.name(),
+        "seed": ctx.seed,
+        "level": "exploration",
+        "coverage": {"evaluations": 0, "distinct_nontrivial": 0, "rule": "run aborted by the per-case watchdog", "samples": [body]},
+        "wall_s": secs,
+        "verdict": if violation { "violated" } else { "inconclusive" },
+        "violations": if violation { json!([{"group": g.name, "case": idx, "message": msg}]) } else { json!([]) },
+    });
+    let _ = std::fs::create_dir_all(format!("{verif}/evidence"));
+    let _ = std::fs::write(format!("{verif}/evidence/{}.json", ctx.prop), serde_json::to_string_pretty(&ev).unwrap());
+    if violation {
+        println!("VIOLATION property={} replay={}", ctx.prop, path);
+        println!("  detail: {msg} (unbounded work on peer-controlled input)");
+        std::process::exit(1);
+    }
+    println!("INCONCLUSIVE: property={} {msg}", ctx.prop);
+    std::process::exit(2);
 }
 
 pub struct Finish {
